@@ -3,6 +3,7 @@ package props
 import (
 	"fmt"
 	"go/token"
+	"strings"
 	"go/types"
 
 	"golang.org/x/tools/go/ssa"
@@ -80,6 +81,53 @@ func checkC20(p *load.Program, r *kit.Report) {
 		return ""
 	})
 
+	// one critical section per method: list and lookup are brought from one consistent state to the
+	// next without releasing the lock in between (Load clears both, then refills the list: with the
+	// lock dropped around the storage read an Add lands in both, and the list-only reset that follows
+	// leaves its address in lookup alone — refused by Add, never returned by Get, lost on Save)
+	{
+		kk := newKeyer()
+		nSec := 0
+		for _, f := range pkgFuncs(p, R) {
+			if f.Signature.Recv() == nil || !strings.HasSuffix(f.Signature.Recv().Type().String(), ".StoragePeerRepository") {
+				continue
+			}
+			var ws []ssa.Instruction
+			for _, w := range kit.DirectWrites(f) {
+				if w.Field == listF || w.Field == lookupF {
+					ws = append(ws, w.Instr)
+				}
+			}
+			if len(ws) < 2 {
+				continue
+			}
+			nSec++
+			li := kit.Lockset(f, nil)
+			key := li.Key(f.Params[0]) + ".lock"
+			bad := ""
+			for _, rel := range lockReleases(f, key) {
+				before := false
+				for _, w := range ws {
+					if kit.Reach(f, kit.After(w), kit.Opts{}).Has(rel) {
+						before = true
+					}
+				}
+				if !before {
+					continue
+				}
+				after := kit.Reach(f, kit.After(rel), kit.Opts{})
+				for _, w := range ws {
+					if after.Has(w) && bad == "" {
+						bad = "the repository lock is released at " + posOf(p, rel) + " between two updates of list/lookup (next one at " + posOf(p, w) + "): a concurrent Add in between is half undone by the later update (its address stays in lookup but not in list)"
+					}
+				}
+			}
+			r.Check(bad == "", "PAIRED-UPDATE", kk.key(kit.ShortID(kit.FuncID(f))+"/one-critical-section"), posOf(p, f.Blocks[0].Instrs[0]), "all updates of list/lookup happen in one critical section", bad)
+		}
+		if nSec == 0 {
+			r.Unknown("PAIRED-UPDATE", "StoragePeerRepository/one-critical-section", "-", "no method with several list/lookup updates found")
+		}
+	}
 	// PAIRED-UPDATE
 	for _, f := range methods {
 		for _, w := range kit.DirectWrites(f) {
